@@ -58,7 +58,7 @@ Proof. intros H. cbn. apply tok_span. exact H. Qed.
 Lemma flat_map_errs {A} (f : A -> list err) l : (forall a, In a l -> errs_ok text (f a)) -> errs_ok text (flat_map f l).
 Proof. induction l; cbn; intros H; [constructor|]. apply Forall_app. split; [apply H; auto|apply IHl; auto]. Qed.
 
-Lemma validate_pairs_ok builtins f : Forall tok_good f -> out_ok text (fun _ => True) (validate_pairs text builtins f).
+Lemma validate_pairs_ok builtins f : Forall tok_good f -> out_ok text true (fun _ => True) (validate_pairs text builtins f).
 Proof.
   intros F. unfold validate_pairs.
   pose proof (definitions_ok f F) as D. destruct (definitions f) as [dts| | |]; try contradiction. cbn [obind].
